@@ -67,12 +67,12 @@ PED_REAL = ["mixed_4x2_3", "mixed_2x4_3", "unreduced", "mixed_then_child", "mixe
 def per_shard(tier):
     if tier == "quick":
         return {"hap": 100, "allele": 70, "ped": 14, "realcall": 4, "realped": 2}
-    return {"hap": 1300, "allele": 950, "ped": 180, "realcall": 40, "realped": 16}
+    return {"hap": 5000, "allele": 4000, "ped": 700, "realcall": 150, "realped": 60}
 
 
 def plan(tier, seed):
     specs = [{"name": "s%02d" % i, "shard": i, "timeout": 1500 if tier == "quick" else 6000} for i in range(16)]
-    specs += [{"name": "prog%d" % i, "kind": "prog", "shard": 40 + i, "datasets": 6 if tier == "quick" else 60, "timeout": 6000} for i in range(4)]
+    specs += [{"name": "prog%d" % i, "kind": "prog", "shard": 40 + i, "datasets": 6 if tier == "quick" else 150, "timeout": 6000} for i in range(4)]
     return specs
 
 
